@@ -122,4 +122,9 @@ def run(ctx):
     for j, nm in zip(jobs, names):
         ctx.case(nm)
     SJ.judge_and_report(ctx, "C12", traces, names)
+    from props import c10 as C10
+    zj = [(ctx.seed + e, e) for e in ((30, 90) if q else range(10, 115, 11))]
+    with ProcessPoolExecutor(min(8, len(zj))) as ex:
+        ztr = list(ex.map(C10.zombie, zj))
+    SJ.judge_and_report(ctx, "C12", ztr, ["dead peer with byte-identical copies arriving every %d ticks" % j[1] for j in zj])
     SJ.run_scenarios(ctx, "C12", [dict(name="many-clients-timers", n=4 if q else 30, nticks=1500 if q else 4000, kw=dict(p_silent=0.02, p_raise=0.0))])
